@@ -149,10 +149,12 @@ CtorPart(cr, cl, i, id) ==
            ent == cr.cpp \o "::<init>"
            logOmit(j) == ent \o "(" \o JoinStr([q \in 1..n |-> IF q > n - j THEN DefaultLog(a[q].def) ELSE ArgLog(a, cl, objs, q)], ",") \o ")"
            ret == "obj:" \o JoinStr(cr.path, ".")
+           kinds(m) == [q \in 1..m |-> IF Kind(a[q].t, cl) = "class" THEN "class:" \o BaseName(St(a[q].t.cpp))
+                                       ELSE Kind(a[q].t, cl) \o (IF a[q].t.q = "&" THEN "&" ELSE "")]
        IN Acc([k \in 1..Len(objs) |-> objs[k].step]
-              \o << CallStep("new", cr.path, "", "", "c", [j \in 1..n |-> ArgPy(a, cl, j)], NoKw, <<logOmit(0)>>, ret, "") >>
-              \o (IF n >= 1 THEN << CallStep("new", cr.path, "", "", "c", <<>>, [j \in 1..n |-> [name |-> a[n + 1 - j].name, value |-> ArgPy(a, cl, n + 1 - j)]], <<logOmit(0)>>, ret, "") >> ELSE <<>>)
-              \o [j \in 1..nd |-> CallStep("new", cr.path, "", "", "c", [q \in 1..(n - j) |-> ArgPy(a, cl, q)], NoKw, <<logOmit(j)>>, ret, "")],
+              \o << CallStepK("new", cr.path, "", "", "", "c", [j \in 1..n |-> ArgPy(a, cl, j)], NoKw, <<logOmit(0)>>, ret, "", kinds(n)) >>
+              \o (IF n >= 1 THEN << CallStepK("new", cr.path, "", "", "", "c", <<>>, [j \in 1..n |-> [name |-> a[n + 1 - j].name, value |-> ArgPy(a, cl, n + 1 - j)]], <<logOmit(0)>>, ret, "", kinds(n)) >> ELSE <<>>)
+              \o [j \in 1..nd |-> CallStepK("new", cr.path, "", "", "", "c", [q \in 1..(n - j) |-> ArgPy(a, cl, q)], NoKw, <<logOmit(j)>>, ret, "", kinds(n - j))],
               id1 + 1 + (IF n >= 1 THEN 1 ELSE 0) + nd)
 
 \* cr declares the member; the receiver is an object of selfcr (cr itself, or a class derived from it)
